@@ -179,12 +179,20 @@ func (fd *Client) UpdateTable(ctx context.Context, input *dynamodb.UpdateTableIn
 		return nil, &types.ResourceNotFoundException{Message: aws.String("Cannot do operations on a non-existent table")}
 	}
 
+	// a failing UpdateTable must leave the attribute definitions as they were
+	previousDefs := make(map[string]string, len(table.AttributesDef))
+	for name, typ := range table.AttributesDef {
+		previousDefs[name] = typ
+	}
+
 	if input.AttributeDefinitions != nil {
 		table.SetAttributeDefinition(mapDynamoToTypesAttributeDefinitionSlice(input.AttributeDefinitions))
 	}
 
 	for _, change := range input.GlobalSecondaryIndexUpdates {
 		if err := table.ApplyIndexChange(mapDynamoTotypesGlobalSecondaryIndexUpdate(change)); err != nil {
+			table.AttributesDef = previousDefs
+
 			return &dynamodb.UpdateTableOutput{
 				TableDescription: mapTypesToDynamoTableDescription(table.Description(tableName)),
 			}, mapKnownError(err)
